@@ -39,6 +39,9 @@ def newlabel_menu(lab, kind):
          "empty": [], "perm_absent": ([hi] + list(lab[::-1]) + [lo, mid]), "single_absent": [mid]}
     if n >= 2:
         m["rotated"] = list(lab[1:]) + [lab[0]]
+    if kind in "if" and n:   # fractional labels hugging existing ones (must be treated as absent, never truncated)
+        eps = 0.5 if kind == "i" else 0.125
+        m["frac"] = [lab[0] + eps, lab[-1], lab[-1] - eps] + [l + eps for l in lab]
     return m
 
 
@@ -153,6 +156,8 @@ def ref_reindex(ra, p, new, fill, method=None):
 
 
 def _newarg(new, kind, form, name):
+    if kind == "i" and any(isinstance(v, float) for v in new):
+        kind = "f"     # fractional new labels on an int axis: keep them fractional in the ndarray / Axis forms
     arr = D.np_labels(new, kind)
     if form == "list":
         return list(new)
